@@ -184,7 +184,7 @@ def fit_check(X, y):
         return True, "single-class corpus (outside the claim)"
     model = train_naive_bayes(X, y)
     ref = _ref_nb(X, y)
-    for doc in X + [["a", "zz"], []]:
+    for doc in X + [["a", "zz"], [], ["a", "zz", "b"], ["b", "zz", "a"], ["a", "zz", "a"], ["zz"]]:
         p = model.predict_log_proba([doc])[0]
         if not all(math.isfinite(v) for v in p) or abs(math.exp(p[0]) + math.exp(p[1]) - 1) > 1e-9:
             return False, "prediction for %r not finite / not normalised: %r" % (doc, p)
